@@ -104,10 +104,13 @@ def gen_inputs(h, n, seed, case):
         yield d, False
 
 
-def cmd_sample(hid, n, seed, fixed_json):
+def cmd_sample(hid, n, seed, fixed_json, exclude=()):
     hs = load_all()
     h = hs[hid]
     fixed = json.loads(fixed_json)
+    mod = sys.modules[h.fn.__module__]
+    region_fns = [getattr(mod, r) for r in exclude]
+    nknown = 0
     npass = nskip = 0
     fails = []
     exhaustive = False
@@ -118,6 +121,13 @@ def cmd_sample(hid, n, seed, fixed_json):
         attempts += 1
         if not exh and (npass >= n or attempts > 60 * n):
             break
+        if region_fns:
+            try:
+                if any(rf(**inputs) for rf in region_fns):
+                    nknown += 1
+                    continue
+            except api.AssumptionFailed:
+                pass
         st, detail = run_one(h, inputs)
         if first is None and st == "pass":
             first = {k: encode_value(v) for k, v in inputs.items()}
@@ -131,7 +141,7 @@ def cmd_sample(hid, n, seed, fixed_json):
             if len(fails) >= 5:
                 break
     print(json.dumps({"pass": npass, "skip": nskip, "fails": fails, "exhaustive": exhaustive,
-                      "sample": first}))
+                      "sample": first, "in_known_regions": nknown}))
 
 
 def main():
@@ -140,7 +150,8 @@ def main():
             cmd_replay(sys.argv[2], sys.argv[3])
         elif sys.argv[1] == "sample":
             cmd_sample(sys.argv[2], int(sys.argv[3]), int(sys.argv[4]),
-                       sys.argv[5] if len(sys.argv) > 5 else "{}")
+                       sys.argv[5] if len(sys.argv) > 5 else "{}",
+                       json.loads(sys.argv[6]) if len(sys.argv) > 6 else ())
         else:
             raise SystemExit("usage")
     except Exception:
